@@ -887,13 +887,13 @@ impl<'a, 'b> TryInto<AnnotationBuilder<'a>> for AnnotationCsv<'a> {
                         "",
                     ));
                 }
-                if self.targetkey.unwrap_or(Cow::Borrowed("")).find(";").is_some() {
+                if self.targetkey.as_deref().unwrap_or("").find(";").is_some() {
                     return Err(StamError::CsvError(
                         format!("Multiple target keys were specified, but without a complex selector"),
                         "",
                     ));
                 }
-                if self.targetdata.unwrap_or(Cow::Borrowed("")).find(";").is_some() {
+                if self.targetdata.as_deref().unwrap_or("").find(";").is_some() {
                     return Err(StamError::CsvError(
                         format!("Multiple target data were specified, but without a complex selector"),
                         "",
@@ -931,6 +931,22 @@ impl<'a, 'b> TryInto<AnnotationBuilder<'a>> for AnnotationCsv<'a> {
                     SelectorKind::DataSetSelector => {
                         let dataset = self.targetdataset;
                         SelectorBuilder::DataSetSelector(BuildItem::Id(dataset.to_string()))
+                    }
+                    SelectorKind::DataKeySelector => {
+                        let dataset = self.targetdataset;
+                        let key = self.targetkey.as_deref().unwrap_or("");
+                        SelectorBuilder::DataKeySelector(
+                            BuildItem::Id(dataset.to_string()),
+                            BuildItem::Id(key.to_string()),
+                        )
+                    }
+                    SelectorKind::AnnotationDataSelector => {
+                        let dataset = self.targetdataset;
+                        let data = self.targetdata.as_deref().unwrap_or("");
+                        SelectorBuilder::AnnotationDataSelector(
+                            BuildItem::Id(dataset.to_string()),
+                            BuildItem::Id(data.to_string()),
+                        )
                     }
                     _ => unreachable!(),
                 }
